@@ -230,8 +230,8 @@ def _reassign(rng, tree):
 class C05(Property):
     id = "C05"
     title = "validate() follows the documented two-phase, all-elements algorithm"
-    proof_module = "Proofs.C05"
-    level_text = 'Lean 4 refinement theorem `validate_refines`: the queue algorithm of Element.validate equals the documented declarative semantics (level order over the tree pruned at SkipAll/SkipAllFalse; per-element verdict; exact call log; return value) for every tree and every outcome assignment; corollaries for each clause. Re-validation of non-fresh trees and the real validate_element are tied by correspondence (exhaustive 2-node scope + random trees, 1-3 re-validations).'
+    proof_module = "Proofs.C05Store"
+    level_text = 'Lean 4 refinement theorem `validate_refines`: the queue algorithm of Element.validate equals the documented declarative semantics (level order over the tree pruned at SkipAll/SkipAllFalse; per-element verdict; exact call log; return value) for every tree and every outcome assignment; corollaries for each clause; the `.valid` store across calls is part of the model (`validNow`): `unvisited_untouched`, `visited_own_verdict`, `revalidate_store`, and `fresh_ret_eq_all_valid` (return value = all_valid over EVERY element of a fresh tree, for trees with distinct elements). The real validate_element and re-validation of the same element tree are tied by correspondence (exhaustive 2-node scope + random trees, 1-3 re-validations).'
     level_note = 'Trusted: Lean kernel + 3 standard axioms; hand-written model Flatland/C05.lean; validators are black boxes returning one of the six outcomes; trees without shared nodes; blinker signals not modelled; validate(recurse=False) not covered.'
     technique = 'Lean 4 proof (refinement of a queue loop to a declarative spec); differential correspondence incl. exhaustive small scope; Python oracle'
     theorems = [
@@ -243,7 +243,11 @@ class C05(Property):
         "Flatland.C05.Proofs.optional_empty_skipped",
         "Flatland.C05.Proofs.stops_at_first",
         "Flatland.C05.Proofs.never_below_skipall",
-        "Flatland.C05.Proofs.fresh_result_eq_all_valid",
+        "Flatland.C05.Proofs.unvisited_untouched",
+        "Flatland.C05.Proofs.visited_own_verdict",
+        "Flatland.C05.Proofs.visited_ids_nodup",
+        "Flatland.C05.Proofs.fresh_ret_eq_all_valid",
+        "Flatland.C05.Proofs.revalidate_store",
     ]
     trusted_base = [
         "validators modelled as black boxes returning one of the six outcomes and logging their call",
